@@ -557,7 +557,7 @@ func (i *importer) importMessage(dbcMsg *dbc.Message) error {
 
 		muxedSignals := []*importerSignal{}
 		for _, dbcSig := range dbcMsg.Signals {
-			if dbcSig.Name == dbcMuxSig.Name {
+			if dbcSig == dbcMuxSig {
 				continue
 			}
 
@@ -609,7 +609,7 @@ func (i *importer) importMessage(dbcMsg *dbc.Message) error {
 
 	muxedSigGroups := make([][]*importerSignal, muxSigCount)
 	for _, dbcSig := range dbcMsg.Signals {
-		if _, ok := muxSigNames[dbcSig.Name]; ok {
+		if dbcSig.IsMultiplexor {
 			continue
 		}
 
